@@ -396,7 +396,15 @@ def jaxtyped(fn=_sentinel, *, typechecker=_sentinel):
 
             full_signature = inspect.signature(fn)
             try:
-                destring_annotations = get_type_hints(fn, include_extras=True)
+                try:
+                    destring_annotations = get_type_hints(fn, include_extras=True)
+                except NameError:
+                    # Probably a forward reference to something local to the function
+                    # or class body in which the decorator is being applied, e.g.
+                    # `Optional["LocalClass"]`. Try again with that namespace.
+                    destring_annotations = get_type_hints(
+                        fn, localns=_decorating_namespace(), include_extras=True
+                    )
             except NameError:
                 # Best-effort attempt to destringify annotations.
                 pass
@@ -725,6 +733,17 @@ def _make_argpiece(p, name_to_annotation, name_to_default):
         return f"{p.name}: {name_to_annotation[p.name]}"
     else:
         return f"{p.name}: {name_to_annotation[p.name]} = {name_to_default[p.name]}"
+
+
+def _decorating_namespace():
+    # The local namespace of the innermost frame that is not jaxtyping's own: that is
+    # where `jaxtyped` is being applied.
+    frame = sys._getframe(1)
+    while frame is not None and frame.f_globals.get("__name__", "").startswith(
+        "jaxtyping."
+    ):
+        frame = frame.f_back
+    return {} if frame is None else dict(frame.f_locals)
 
 
 def _is_coroutine_function(fn):
